@@ -36,11 +36,11 @@ def extra(r, exe, thorough):
 
 
 def run(tier, seed):
-    # quick: 8 shards x 13 batches x 50 = 5200 cycles; thorough: 16 x 2000 batches x 50 = 1.6e6 cycles (1e5 per process)
-    r, obs = _hist.run_hist("C12", tier, seed, "c12", 104, 32000, RULE, ASSUME, batch_quick=50, batch_thorough=50, extra_runs=extra)
+    # quick: 8 shards x 130 batches x 50 = 52000 cycles; thorough: 16 x 2000 batches x 50 = 1.6e6 cycles (1e5 per process)
+    r, obs = _hist.run_hist("C12", tier, seed, "c12", 1040, 32000, RULE, ASSUME, batch_quick=50, batch_thorough=50, extra_runs=extra)
     r.observe("cycles", obs.get("lifetimes", 0))
     r.void_if_unobserved(obs.get("ledger_checks", 0) > 0 and obs.get("counters", {}).get("mmap_exec_ok", 0) > 0, "ledger monitor observed nothing")
-    return r.finish({"scenario": "hist", "mon": "c12", "n": 104 if tier == "quick" else 32000, "batch": 50})
+    return r.finish({"scenario": "hist", "mon": "c12", "n": 1040 if tier == "quick" else 32000, "batch": 50})
 
 
 def replay(path):
